@@ -17,7 +17,7 @@
 From Coq Require Import List ZArith String Bool Lia.
 From Coq Require Import Floats.SpecFloat.
 From Anko Require Import Base.Int64 Base.F64 Conv.Convert Conv.CallArgs.
-From Anko Require Conv.TypedProofs Conv.FloatConv.
+From Anko Require Conv.TypedProofs Conv.FloatConv Base.OfIntExact.
 Import ListNotations.
 Open Scope Z_scope.
 
@@ -123,6 +123,12 @@ Proof. exact FloatConv.floats_become_numbers_only. Qed.
 Theorem float64_parameter_receives_the_float : forall n f, conv (SFloat f) (TFloat n 64) = Some (VFloat n 64 f).
 Proof. exact FloatConv.float64_parameter_receives_the_float. Qed.
 
+Theorem an_integer_below_2_53_reaches_a_float64_parameter_exactly : forall n z, - 2 ^ 53 < z < 2 ^ 53 ->
+  exists f, conv (SInt z) (TFloat n 64) = Some (VFloat n 64 f) /\ F64.to_int f = z.
+Proof.
+  intros n z Hz. exists (F64.of_int z). split; [reflexivity | exact (OfIntExact.small_integers_are_floats_exactly z Hz)].
+Qed.
+
 Example float_255_9_to_int8 : conv (SFloat (F64.of_bits 4643208355896801690)) (TInt "int8" true 8) = Some (VInt "int8" true 8 (-1)).
 Proof. exact FloatConv.float_to_int8. Qed.
 
@@ -157,3 +163,4 @@ Print Assumptions float_to_signed_parameter.
 Print Assumptions float_to_unsigned_parameter.
 Print Assumptions negative_float_to_unsigned_parameter.
 Print Assumptions unrepresentable_float_to_unsigned_parameter.
+Print Assumptions an_integer_below_2_53_reaches_a_float64_parameter_exactly.
